@@ -6,6 +6,7 @@ use crate::regress;
 use crate::report::{is_thorough, CaseOut, Report, Violation};
 use crate::run::{is_implicit, mname, run, run_lowlevel, Cfg, Outcome, M6};
 use crate::util::par_map;
+use crate::env::Ans;
 use ivp::prelude::*;
 use serde_json::{json, Value};
 use std::sync::Arc;
@@ -178,6 +179,21 @@ pub fn run_check(replay: Option<Value>) -> i32 {
                 out.validated += 1;
             }
         }
+        // (a2) the same first trial step when the initial callback answers ModifiedSolution (state untouched)
+        if let (Some(h0), true) = (cl.first_step, m != Method::RK4) {
+            let r2 = run_lowlevel(&p, &cl, &[(0, Ans::Modified(1.0))], &[], None, false);
+            out.events += r2.st.n_ode;
+            if let Some(call) = r2.st.log.iter().filter(|q| !q.in_jac).find(|q| q.t != 0.0) {
+                let hobs = call.t / c2(m);
+                let want = h0.abs() * dir;
+                let stretched_ok = 1.01 * h0.abs() >= *span && (hobs - span * dir).abs() <= 1e-12 * span;
+                if (hobs - want).abs() > 1e-12 * want.abs() && !stretched_ok {
+                    viol!("first-trial-step", format!("after a ModifiedSolution answer at the initial callback the first trial step observed at the RHS interface is {:e}, first_step is {:e}", hobs, want));
+                }
+                out.tag("first-step-after-modification");
+                out.validated += 1;
+            }
+        }
         // (b) solve_ivp reports the same steps
         let rs = run(&p, &c);
         match &rs.out {
@@ -217,9 +233,8 @@ pub fn run_check(replay: Option<Value>) -> i32 {
                     continue;
                 }
               for long_first in [false, true] {
-                if long_first && *m == Method::RK4 {
-                    continue;
-                }
+                // (RK4 has no step control to reject with: its second configuration is the step solve_ivp derives
+                // itself, span/100, which must not depend on the budget)
                 let p = if backward { reflect(p0) } else { p0.clone() };
                 let xend = if backward { -*span } else { *span };
                 let mut c = Cfg::new(*m, 0.0, xend, &p.y0).tol(*tol, tol * 1e-2);
@@ -229,7 +244,7 @@ pub fn run_check(replay: Option<Value>) -> i32 {
                 }
                 if long_first {
                     // a first step far too long for the tolerance: the run starts with rejections
-                    c.first_step = Some(xend / 2.0);
+                    c.first_step = if *m == Method::RK4 { None } else { Some(xend / 2.0) };
                 }
                 let full = run(&p, &c);
                 let fs = match full.sol() {
@@ -307,7 +322,7 @@ pub fn run_check(replay: Option<Value>) -> i32 {
         return if rep.violations.is_empty() { 0 } else { 1 };
     }
     rep.violations.extend(regress::violations_for("C11"));
-    for t in ["max-step-checked", "first-step-checked", "first-step-accepted", "budget-ran-out", "budget-sufficient"] {
+    for t in ["max-step-checked", "first-step-checked", "first-step-accepted", "first-step-after-modification", "budget-ran-out", "budget-sufficient"] {
         rep.require(t, 50);
     }
     rep.rule = "lattice method x direction x problem (one slow, so that the controller wants more than max_step from the first step on) x max_step x first_step x tolerance x sign of first_step; accepted step lengths from the low-level callbacks, first trial step from the time of the second RHS call, first interval when accepted; budget clause: EVERY budget 1..nstep_full+2 of each configuration, bitwise prefix comparison with the unbudgeted run; distinct = distinct RHS fingerprints (x budget)".into();
